@@ -176,6 +176,48 @@ pub fn dispatch(v: &Value) -> Value {
             let root = v.get("root").and_then(|x| x.as_u64()).map(|x| x as u8);
             json!({"arc": hk::oid_well_known(name.as_ref(), root).map(|x| x as u64)})
         }
+        "deliver" => {
+            // compile() with a file / directory / no-output destination prepared by the caller, next to the reference
+            // compile_to_string() on the same sources.  stdout mode is observed through the CLI only.
+            use rasn_compiler::prelude::*;
+            use rasn_compiler::OutputMode;
+            let paths: Vec<std::path::PathBuf> = v["paths"].as_array().map(|a| a.iter().filter_map(|x| x.as_str().map(std::path::PathBuf::from)).collect()).unwrap_or_default();
+            let literals: Vec<String> = v["literals"].as_array().map(|a| a.iter().filter_map(|x| x.as_str().map(String::from)).collect()).unwrap_or_default();
+            let dest = s(v, "dest");
+            let mode_s = s(v, "mode");
+            let ts = s(v, "backend") == "ts";
+            let mode = || match mode_s.as_str() {
+                "file" => OutputMode::SingleFile(std::path::PathBuf::from(&dest)),
+                _ => OutputMode::NoOutput,
+            };
+            fn outcome(r: Result<Vec<CompilerError>, CompilerError>) -> Value {
+                match r {
+                    Ok(w) => json!({"ok": true, "warnings": w.iter().map(|x| x.to_string()).collect::<Vec<_>>()}),
+                    Err(e) => json!({"ok": false, "err": e.to_string()}),
+                }
+            }
+            fn reference(r: Result<CompileResult, CompilerError>) -> Value {
+                match r {
+                    Ok(c) => json!({"ok": true, "text": c.generated, "warnings": c.warnings.iter().map(|x| x.to_string()).collect::<Vec<_>>()}),
+                    Err(e) => json!({"ok": false, "err": e.to_string()}),
+                }
+            }
+            macro_rules! run {
+                ($b:ty) => {{
+                    let mk = || {
+                        let mut c = Compiler::<$b, _>::new().add_asn_sources_by_path(paths.iter());
+                        for l in literals.iter() {
+                            c = c.add_asn_literal(l.clone());
+                        }
+                        c
+                    };
+                    let r = reference(mk().compile_to_string());
+                    let o = outcome(mk().set_output_mode(mode()).compile());
+                    json!({"reference": r, "outcome": o})
+                }};
+            }
+            if ts { run!(TypescriptBackend) } else { run!(RasnBackend) }
+        }
         "charset" => {
             let st = crate::ir::string_type(v.get("cs")).unwrap();
             let cs: Vec<u32> = hk::character_set(st).into_iter().map(|c| c as u32).collect();
